@@ -237,6 +237,7 @@ def _as_pbc(np, pbc, form):
 
 
 def gen_arr_case(rng, regime):
+    f32 = False
     if regime == 'exact':
         f = 2.0 ** gen_scale_exp(rng)
         v, o = gen_cell_scaled(rng, rng.choice(CELL_KINDS), f)
@@ -256,10 +257,15 @@ def gen_arr_case(rng, regime):
         pos1 = [pt() for _ in range(n1)]
         if n0 and n1 and rng.random() < 0.3:            # near ties: half a cell vector +- tiny
             i = rng.randrange(3)
-            eps = rng.choice([0.0, 1e-16, -1e-16, 1e-13, -1e-13, 1e-9, -1e-9])
+            eps = rng.choice(NEAR_TIE_EPS)
             pos1[0] = [pos0[0][j] + (0.5 + eps) * v[i][j] for j in range(3)]
+        if n1 and rng.random() < 0.15:
+            import numpy as np
+            pos1 = [[float(np.float32(x)) for x in p] for p in pos1]
+            f32 = True
     return {'op': 'arr', 'regime': regime, 'vects': v, 'origin': o, 'pbc': gen_pbc(rng), 'pos0': pos0, 'pos1': pos1,
-            'form0': _form(rng, n0), 'form1': _form(rng, n1), 'pbcform': rng.choice(['tuple', 'list', 'array'])}
+            'form0': _form(rng, n0), 'form1': 'f32' if f32 else _form(rng, n1),
+            'pbcform': rng.choice(['tuple', 'list', 'array'])}
 
 
 def gen_sel(rng, natoms, v, o, ints_ok=True):
@@ -786,7 +792,13 @@ def gen_history(rng, oracle=False):
         elif r < 0.4:
             b = rng.randrange(len(sh.boxes))
             r2 = rng.random()
-            if r2 < 0.35:
+            if r2 < 0.12:
+                # same cell lengths and angles, other orientation: signed permutation of the Cartesian axes
+                perm = rng.sample(range(3), 3)
+                sg = [rng.choice([-1.0, 1.0]) for _ in range(3)]
+                cv = sh.boxes[b]['v']
+                add({'do': 'boxvects', 'box': b, 'v': [[sg[j] * rw[perm[j]] for j in range(3)] for rw in cv]})
+            elif r2 < 0.35:
                 add({'do': 'boxvects', 'box': b, 'v': cell()[0]})
             elif r2 < 0.5:
                 add({'do': 'boxorigin', 'box': b, 'o': cell()[1], 'via': rng.choice(['attr', 'set'])})
@@ -1284,10 +1296,18 @@ def _candidates(pbc):
     return list(itertools.product(*[([-1, 0, 1] if p else [0]) for p in pbc]))
 
 
+def _viol(ctx, key, what, rep):
+    """at most 3 reports per clause, so that one broken clause does not use up the report budget of the others."""
+    counts = ctx.__dict__.setdefault('_c02_counts', {})
+    counts[key] = counts.get(key, 0) + 1
+    if counts[key] <= 3:
+        ctx.violate(key, what, rep)
+
+
 STAT_KEYS = ('pairs', 'true_nearest_claimed', 'claimed_ortho', 'claimed_width', 'inside_no_claim',
              'inside_no_claim_not_nearest', 'outside_not_nearest', 'enumeration_skipped', 'lattice_points_enumerated',
              'one_to_many', 'many_to_one', 'many_to_many', 'refusals_checked', 'history_queries', 'history_steps',
-             'history_aborted', 'pairs_after_inplace_change')
+             'history_aborted', 'pairs_after_inplace_change', 'shift_beyond_one')
 
 
 def new_stats():
@@ -1315,13 +1335,13 @@ def clauses(ctx, stats, pre, label, v, o, pbc, pairs, dv, dm, exact, rep, claim=
             okm = _sqrt_ok(dm[k], m2) if exact else \
                 abs(float(dm[k]) - math.sqrt(float(m2))) <= 2 * delta + 2.0 ** -50 * float(dm[k])
             if not okm:
-                ctx.violate(pre + 'dmag-vs-min27', f'{label(k)} pbc={pbc} = {float(dm[k])!r} but the shortest of the candidates '
+                _viol(ctx, pre + 'dmag-vs-min27', f'{label(k)} pbc={pbc} = {float(dm[k])!r} but the shortest of the candidates '
                             f'(shift {cbest[0]}) has length {math.sqrt(float(m2))!r}', {**rep, 'pair': k})
             continue
         row = [float(x) for x in dv[k]]
         e = g.to_int(row) if exact else None
         if exact and e is None:
-            ctx.violate(pre + 'image-form', f'{label(k)} = {row} is off the input grid: not a lattice image', {**rep, 'pair': k})
+            _viol(ctx, pre + 'image-form', f'{label(k)} = {row} is off the input grid: not a lattice image', {**rep, 'pair': k})
             continue
         if exact:
             nn = g.shift_of(e, d0)
@@ -1331,22 +1351,25 @@ def clauses(ctx, stats, pre, label, v, o, pbc, pairs, dv, dm, exact, rep, claim=
             nn = [Fraction(round(x)) for x in nn]
             img = g.image(d0, [int(x) for x in nn])
             if any(abs(float(ef[j] - img[j]) / g.D) > delta for j in range(3)):
-                ctx.violate(pre + 'image-form', f'{label(k)} = {row} is not (p1-p0) + n.vects for integer n '
+                _viol(ctx, pre + 'image-form', f'{label(k)} = {row} is not (p1-p0) + n.vects for integer n '
                             f'(closest n = {[int(x) for x in nn]})', {**rep, 'pair': k})
                 continue
             e = img
-        # clause 1: image with n_i in {-1,0,1}, n_i = 0 on non-periodic axes
-        if any(x.denominator != 1 for x in nn) or any(abs(x) > 1 for x in nn) or \
-                any((not pbc[i]) and nn[i] != 0 for i in range(3)):
-            ctx.violate(pre + 'image-form', f'{label(k)} pbc={pbc}: {row} = (p1-p0) + n.vects with '
-                        f'n = {[str(x) for x in nn]}: not an admissible shift', {**rep, 'pair': k})
+        # clause 1: the direct separation shifted by WHOLE cell vectors along PERIODIC directions only
+        if any(x.denominator != 1 for x in nn) or any((not pbc[i]) and nn[i] != 0 for i in range(3)):
+            _viol(ctx, pre + 'image-form', f'{label(k)} pbc={pbc}: {row} = (p1-p0) + n.vects with '
+                        f'n = {[str(x) for x in nn]}: not whole cell vectors along periodic directions only', {**rep, 'pair': k})
             continue
+        if any(abs(x) > 1 for x in nn):
+            # the text allows any whole shift as long as the result is not longer than the 27 candidates (the model
+            # never produces one: `dvect_is_image`; the correspondence reports the difference)
+            stats['shift_beyond_one'] += 1
         m = [int(x) for x in nn]
         e2 = _dot(e, e)
         # clause 2: not longer than any of the 27 candidates
         slack = 0 if exact else int((8 * (math.sqrt(e2) / g.D + delta) * delta) * g.D * g.D) + 1
         if e2 > cbest[1] + slack:
-            ctx.violate(pre + 'min27', f'{label(k)} pbc={pbc} has squared length {float(Fraction(e2, g.D ** 2))!r}, candidate shift '
+            _viol(ctx, pre + 'min27', f'{label(k)} pbc={pbc} has squared length {float(Fraction(e2, g.D ** 2))!r}, candidate shift '
                         f'{cbest[0]} has {float(Fraction(cbest[1], g.D ** 2))!r}', {**rep, 'pair': k})
         # clause 3: scalar distance = length of the vector
         m2 = Fraction(e2, g.D * g.D)
@@ -1354,7 +1377,7 @@ def clauses(ctx, stats, pre, label, v, o, pbc, pairs, dv, dm, exact, rep, claim=
             okm = _sqrt_ok(dm[k], m2) if exact else \
                 abs(float(dm[k]) - math.sqrt(float(m2))) <= 2 * delta + 2.0 ** -50 * float(dm[k])
             if not okm:
-                ctx.violate(pre + 'dmag-vs-dvect', f'{label(k).replace("dvect", "dmag")} = {float(dm[k])!r} but |dvect| = '
+                _viol(ctx, pre + 'dmag-vs-dvect', f'{label(k).replace("dvect", "dmag")} = {float(dm[k])!r} but |dvect| = '
                             f'{math.sqrt(float(m2))!r}', {**rep, 'pair': k})
         # clause 5: true nearest image
         if not any(pbc) or not claim:
@@ -1372,7 +1395,7 @@ def clauses(ctx, stats, pre, label, v, o, pbc, pairs, dv, dm, exact, rep, claim=
             stats['true_nearest_claimed'] += 1
             stats['claimed_ortho' if ortho else 'claimed_width'] += 1
             if e2 > best + slack:
-                ctx.violate(pre + 'true-nearest', f'points in the cell ({"orthogonal cell" if ortho else "nearest image below half the smallest width"}), '
+                _viol(ctx, pre + 'true-nearest', f'points in the cell ({"orthogonal cell" if ortho else "nearest image below half the smallest width"}), '
                             f'{label(k)} pbc={pbc} = {row} (|.|^2 = {float(Fraction(e2, g.D ** 2))!r}) but the image with '
                             f'n = {list(arg)} has |.|^2 = {float(Fraction(best, g.D ** 2))!r}', {**rep, 'pair': k})
         elif inside:
@@ -1416,20 +1439,20 @@ def oracle_pairs(ctx, case, stats):
         stats['refusals_checked'] += 1
         for name, r in (('dvect', rdv), ('dmag', rdm)):
             if r != ('err', 'value'):
-                ctx.violate('refusal:lengths', f'am.{name} with {shapes} (neither one-to-many nor many-to-many) must raise '
+                _viol(ctx, 'refusal:lengths', f'am.{name} with {shapes} (neither one-to-many nor many-to-many) must raise '
                             f'ValueError; it gave {r[0]} {str(r[1])[:120]!r}; cell {v}, pos_0 {p0s}, pos_1 {p1s}', rep)
         return
     for name, r in (('dvect', rdv), ('dmag', rdm)):
         if r[0] == 'err':
-            ctx.violate('raises', f'am.{name} with {shapes} raised {r[1]}; cell {v} pbc={pbc} pos_0 {p0s} pos_1 {p1s}', rep)
+            _viol(ctx, 'raises', f'am.{name} with {shapes} raised {r[1]}; cell {v} pbc={pbc} pos_0 {p0s} pos_1 {p1s}', rep)
             return
     for name, r, w in (('dvect', rdv, 3), ('dmag', rdm, 1)):
         if not _shape_ok(np, r[1], len(pairs), w, False):
-            ctx.violate('shape', f'am.{name} with {shapes} returned shape {np.asarray(r[1]).shape}, expected '
+            _viol(ctx, 'shape', f'am.{name} with {shapes} returned shape {np.asarray(r[1]).shape}, expected '
                         f'{(len(pairs), 3) if w == 3 else (len(pairs),)}', rep)
             return
     if not (np.array_equal(np.array(A, dtype=float), keep[0]) and np.array_equal(np.array(B, dtype=float), keep[1])):
-        ctx.violate('input-modified', f'am.dvect / am.dmag changed the position arrays handed in ({shapes}); pos_0 was {p0s}, '
+        _viol(ctx, 'input-modified', f'am.dvect / am.dmag changed the position arrays handed in ({shapes}); pos_0 was {p0s}, '
                     f'pos_1 was {p1s}', rep)
     stats['one_to_many' if len(p0s) == 1 and len(p1s) > 1 else 'many_to_one' if len(p1s) == 1 and len(p0s) > 1
           else 'many_to_many'] += 1
@@ -1439,7 +1462,7 @@ def oracle_pairs(ctx, case, stats):
         T = np.array(tshift, dtype=float)
         rt = _call(lambda: am.dvect(keep[0] + T, keep[1] + T, box, pb))
         if rt[0] == 'err' or not np.array_equal(np.asarray(rt[1]), np.asarray(rdv[1])):
-            ctx.violate('translate', f'dvect changes under a common translation {tshift}: {dv} -> '
+            _viol(ctx, 'translate', f'dvect changes under a common translation {tshift}: {dv} -> '
                         f'{rt[1] if rt[0] == "err" else np.asarray(rt[1]).tolist()}; cell {v} pbc={pbc} pos_0 {p0s} pos_1 {p1s}', rep)
     clauses(ctx, stats, '', lambda k: f'dvect({pairs[k][0]}, {pairs[k][1]}) [{shapes}, cell {v}]', v, o, pbc, pairs, dv, dm,
             exact, rep)
@@ -1451,6 +1474,7 @@ NEAR_TIE_EPS = [0.0, 1e-16, -1e-16, 1e-15, 1e-14, -1e-14, 1e-13, -1e-13, 1e-12, 
 
 def _oracle_case(rng, regime, kind=None, inside=None):
     shape = rng.choice(['mm', 'mm', 'mm', '1m', 'm1'])
+    f32 = False
     if regime == 'exact':
         f = 2.0 ** gen_scale_exp(rng)
         v, o = gen_cell_scaled(rng, kind or rng.choice(CELL_KINDS), f)
@@ -1469,6 +1493,8 @@ def _oracle_case(rng, regime, kind=None, inside=None):
         if rng.random() < 0.08:          # exactly half a cell vector (or half a face diagonal) apart
             h = [rng.choice([0, 0, 0.5, -0.5]) for _ in range(3)]
             p1[0] = [p0[0][j] + sum(h[i] * v[i][j] for i in range(3)) for j in range(3)]
+        if rng.random() < 0.08:          # one side integer-valued (handed over with an integer dtype / as python ints)
+            p0 = [[float(round(x)) for x in p] for p in p0]
         tr = [rng.randint(-64, 64) / 8.0 * f for _ in range(3)] if rng.random() < 0.5 else None
     else:
         v, o = gen_float_cell(rng)
@@ -1481,6 +1507,10 @@ def _oracle_case(rng, regime, kind=None, inside=None):
             eps = rng.choice(NEAR_TIE_EPS)
             p1[0] = [p0[0][j] + (0.5 + eps) * v[i][j] for j in range(3)]
         tr = None
+        if rng.random() < 0.15:          # single-precision input: the float32 values ARE the points
+            import numpy as np
+            p0 = [[float(np.float32(x)) for x in p] for p in p0]
+            f32 = True
     if shape == '1m':
         p0 = p0[:1]
     elif shape == 'm1':
@@ -1491,7 +1521,8 @@ def _oracle_case(rng, regime, kind=None, inside=None):
     if not any(pbc) and rng.random() < 0.7:
         pbc[rng.randrange(3)] = True
     return {'regime': regime, 'vects': v, 'origin': o, 'pbc': pbc, 'p0': p0, 'p1': p1, 'translate': tr,
-            'form0': _form(rng, len(p0)), 'form1': _form(rng, len(p1)), 'pbcform': rng.choice(['tuple', 'list', 'array'])}
+            'form0': 'f32' if f32 else _form(rng, len(p0)), 'form1': _form(rng, len(p1)),
+            'pbcform': rng.choice(['tuple', 'list', 'array'])}
 
 
 def _sel_text(sel):
@@ -1557,20 +1588,20 @@ def check_history(ctx, case, stats, upto=None):
             if pairs is None:
                 stats['refusals_checked'] += 1
                 if r != ('err', 'value'):
-                    ctx.violate('history:refusal:natoms', hist + who + f": the systems have {len(s0['pos'])} and {len(s1['pos'])} "
+                    _viol(ctx, 'history:refusal:natoms', hist + who + f": the systems have {len(s0['pos'])} and {len(s1['pos'])} "
                                 f'atoms, ValueError expected, got {r[0]} {str(r[1])[:120]!r}', rep)
                 continue
             if r[0] == 'err':
-                ctx.violate('history:raises', hist + who + f' raised {r[1]}', rep)
+                _viol(ctx, 'history:raises', hist + who + f' raised {r[1]}', rep)
                 continue
             if not _shape_ok(np, r[1], len(pairs), 3, False):
-                ctx.violate('history:shape', hist + who + f' returned shape {np.asarray(r[1]).shape} for {len(pairs)} atoms', rep)
+                _viol(ctx, 'history:shape', hist + who + f' returned shape {np.asarray(r[1]).shape} for {len(pairs)} atoms', rep)
                 continue
             rows = _rows(np, r[1], 3)
             if rs is None:
                 for k2, (p, q) in enumerate(pairs):
                     if not _exact_eq(rows[k2], [Fraction(q[j]) - Fraction(p[j]) for j in range(3)]):
-                        ctx.violate('history:displacement', hist + who + f' atom {k2}: {rows[k2]} is not the plain difference', rep)
+                        _viol(ctx, 'history:displacement', hist + who + f' atom {k2}: {rows[k2]} is not the plain difference', rep)
                         break
             else:
                 v, o = sh.cell_of(rs)
@@ -1584,20 +1615,20 @@ def check_history(ctx, case, stats, upto=None):
             stats['refusals_checked'] += 1
             for n2, r in got.items():
                 if r != ('err', 'value'):
-                    ctx.violate('history:refusal:lengths', hist + (who % n2) + f': neither one-to-many nor many-to-many, ValueError '
+                    _viol(ctx, 'history:refusal:lengths', hist + (who % n2) + f': neither one-to-many nor many-to-many, ValueError '
                                 f'expected, got {r[0]} {str(r[1])[:120]!r}', rep)
             continue
         okq = True
         for n2, r in got.items():
             w = 3 if n2 == 'dvect' else 1
             if r[0] == 'err':
-                ctx.violate('history:raises', hist + (who % n2) + f' raised {r[1]}', rep)
+                _viol(ctx, 'history:raises', hist + (who % n2) + f' raised {r[1]}', rep)
                 okq = False
             elif not _shape_ok(np, r[1], len(pairs), w, squeeze):
-                ctx.violate('history:shape', hist + (who % n2) + f' returned shape {np.asarray(r[1]).shape} for {len(pairs)} pair(s)', rep)
+                _viol(ctx, 'history:shape', hist + (who % n2) + f' returned shape {np.asarray(r[1]).shape} for {len(pairs)} pair(s)', rep)
                 okq = False
         if not obs['inputs_kept']:
-            ctx.violate('history:input-modified', hist + (who % 'dvect/dmag') + ' changed the position arrays handed in', rep)
+            _viol(ctx, 'history:input-modified', hist + (who % 'dvect/dmag') + ' changed the position arrays handed in', rep)
         if not okq or not pairs:
             continue
         dv = _rows(np, got['dvect'][1], 3) if 'dvect' in got else None
@@ -1638,7 +1669,7 @@ def check_refusal(ctx, case, stats):
     n0, n1 = len(sys0['pos']), len(sys1['pos'])
     if r != ('err', 'value'):
         why = f'the systems have {n0} and {n1} atoms' if n0 != n1 else f'box_reference={ref!r} is none of final/initial/None'
-        ctx.violate('refusal:natoms' if n0 != n1 else 'refusal:box-reference',
+        _viol(ctx, 'refusal:natoms' if n0 != n1 else 'refusal:box-reference',
                     f'displacement(system_0 with pos {sys0["pos"]}, system_1 with pos {sys1["pos"]}, box_reference={ref!r}): {why}, '
                     f'ValueError expected; got {r[0]} ' + (f'an array of shape {np.asarray(r[1]).shape}' if r[0] == 'ok' else str(r[1])),
                     {'op': 'refusal', 'case': case})
